@@ -57,13 +57,8 @@ def attempt(f):
         return ('raised', type(e).__name__)
 
 
-def probe(runner, op):
-    """after a `find` step: the same filter through all entry points, each on a twin"""
-    if op[0] != 'find':
-        return None
-    filt = op[1]
-    docs = [copy.deepcopy(d) for d in runner.raw_docs()]
-    F = lambda: copy.deepcopy(filt)
+def through_all(docs, F):
+    """the filter produced by F() through every filter-taking entry point, each on a twin"""
     res = {}
     res['find'] = attempt(lambda: [d['_id'] for d in twin(docs).find(F())])
     res['count'] = attempt(lambda: twin(docs).count_documents(F()))
@@ -75,6 +70,37 @@ def probe(runner, op):
     res['distinct'] = attempt(lambda: len(twin(docs).distinct('_id', F())))
     res['find_one'] = attempt(lambda: twin(docs).find_one(F()) is not None)
     res['n_docs'] = len(docs)
+    return res
+
+
+def extra_filters(docs, rng_key):
+    """python-only filter values the wire format does not carry: compiled patterns as filter
+    VALUES (on _id and on ordinary fields), aimed at strings the documents hold"""
+    import re
+    out = []
+    strs = []
+    for d in docs:
+        for k, v in d.items():
+            if isinstance(v, str) and v:
+                strs.append((k, v))
+    for k, v in strs[:3]:
+        out.append(('{%r: re.compile(%r)}' % (k, '^' + re.escape(v[0])),
+                    (lambda k=k, v=v: {k: re.compile('^' + re.escape(v[0]))})))
+    out.append(("{'_id': re.compile('.')}", lambda: {'_id': re.compile('.')}))
+    out.append(("{'_id': {'$in': [re.compile('^a'), 1]}}",
+                lambda: {'_id': {'$in': [re.compile('^a'), 1]}}))
+    return out
+
+
+def probe(runner, op):
+    """after a `find` step: the same filter through all entry points, each on a twin"""
+    if op[0] != 'find':
+        return None
+    filt = op[1]
+    docs = [copy.deepcopy(d) for d in runner.raw_docs()]
+    F = lambda: copy.deepcopy(filt)
+    res = through_all(docs, F)
+    res['extras'] = [(name, through_all(docs, mk)) for name, mk in extra_filters(docs, 0)]
     # the same through a collection handle carrying its own tz_aware codec options
     from mongomock.codec_options import CodecOptions
 
@@ -165,6 +191,9 @@ def oracle(history, steps):
         pr = (st.extra or {}).get('probe')
         if pr:
             fails.extend(check_agree(i, pr))
+            for name, ex in pr.get('extras', ()):
+                for (j, lab, msg) in check_agree(i, ex):
+                    fails.append((j, lab, 'filter %s: %s' % (name, msg)))
         prev_docs = docs
         if any(l not in known_labels for (_, l, _) in fails) or len(fails) > 50:
             break
@@ -182,7 +211,7 @@ def check_agree(i, pr):
             if aw[k] != ('ok', v):
                 fails.append((i, 'aware-handle-disagree', 'through a tz_aware collection handle '
                               '%s gives %r where the plain find selects %r' % (k, aw[k], ids)))
-    kinds = {k: v[0] for k, v in pr.items() if k not in ('n_docs', 'aware')}
+    kinds = {k: v[0] for k, v in pr.items() if k not in ('n_docs', 'aware', 'extras')}
     if len(set(kinds.values())) > 1:
         others = {v for k, v in kinds.items() if k != 'match'}
         if pr['n_docs'] == 0 and others == {'raised'} and kinds['match'] == 'ok':
